@@ -181,6 +181,10 @@ async fn one_conn(fx: &Fx, c: &Conn, idx: usize) -> Result<Expect, String> {
             let s2c_o = s2c.clone();
             let c2s_len = c2s.len();
             let kind = c.kind;
+            // the aborting origin waits until the harness has looked at /api/live (otherwise the tunnel may
+            // legitimately be gone before the query is answered)
+            let (go_tx, go_rx) = tokio::sync::oneshot::channel::<()>();
+            let mut go_tx = Some(go_tx);
             let origin = tokio::spawn(async move {
                 let (mut os, _) = match tokio::time::timeout(Duration::from_secs(10), l.accept()).await {
                     Ok(Ok(x)) => x,
@@ -188,6 +192,7 @@ async fn one_conn(fx: &Fx, c: &Conn, idx: usize) -> Result<Expect, String> {
                 };
                 if kind == Kind::OriginAbort {
                     let _ = os.write_all(&s2c_o[..s2c_o.len() / 2]).await;
+                    let _ = tokio::time::timeout(Duration::from_secs(8), go_rx).await;
                     tokio::time::sleep(Duration::from_millis(30)).await;
                     let _ = socket2::SockRef::from(&os).set_linger(Some(Duration::from_secs(0)));
                     return 0;
@@ -218,6 +223,9 @@ async fn one_conn(fx: &Fx, c: &Conn, idx: usize) -> Result<Expect, String> {
                     // live while open?
                     if let Ok((_, v)) = api_json(fx.api, "GET", "/api/live", None, dur).await {
                         e.seen_live = Some(v.as_array().map(|a| a.iter().any(|x| x["source"].as_str() == Some(&src.to_string()))).unwrap_or(false));
+                    }
+                    if let Some(tx) = go_tx.take() {
+                        let _ = tx.send(());
                     }
                     match c.kind {
                         Kind::ClientAbort => {
